@@ -26,6 +26,10 @@ TOL_EOS = 1e-4
 TOL_PHI = 1e-6
 LNPHI_LO, LNPHI_HI = -4.6, 4.44
 FINDING_KEY = "fixedV-numerical-negative-PR-pressure"
+FINDING3_KEY = "gas-component-not-in-model-stale-partial-pressure"
+MINIMAL_FINDING3 = ("SOLUTION 1\n temp 25\nGAS_PHASE 1\n -fixed_pressure\n -pressure 0.5\n -volume 1\n CO2(g) 0.005\n H2O(g) 0.495\nEND\n"
+                    "SOLUTION 2\n temp 70\n units mol/kgw\n Na 1\n Cl 1\nGAS_PHASE 2\n -fixed_pressure\n -pressure 0.2985\n -volume 1\n -temperature 70\n"
+                    " CO2(g) 0\n H2O(g) 0\nEND\n# phreeqc.dat: second simulation reports 13.5 mol H2O(g) at 0.2985 atm although 10^SI/phi = 0.29272; alone: no gas phase")
 FINDING2_KEY = "fixedV-vm-iteration-accepted-early"
 MINIMAL_FINDING2 = ("SOLUTION 1\n temp 10\n -water 100\nGAS_PHASE 1\n -fixed_volume\n -volume 0.01\n -temperature 10\n H2O(g) 1.0\nEND\n"
                     "# phreeqc.dat: run completes; GAS_P=0.0122698, GAS_VM=1890.22, 10^SI/(PR_PHI*PR_P)=1.0016176 = EOS-consistent V_m / GAS_VM")
@@ -556,12 +560,20 @@ def judge(ctx, case, res, pre):
         checks.append((name, val, tol, msg if not (val <= tol) else None))
 
     gases = case["gases"]
-    kind = case["kind"]
-    ideal = kind == "ideal"
-    gtype = case.get("ideal_type", kind)
     for row in res["rows"]:
         if not isinstance(row.get("step"), float) or row["step"] < 1:
             continue
+        # a history of several simulations carries one context (phase type, fixed pressure / volume) per simulation
+        cx = case
+        if case.get("sims"):
+            k = int(row["sim"]) - 1 if isinstance(row.get("sim"), float) else -1
+            if not (0 <= k < len(case["sims"])):
+                continue
+            cx = case["sims"][k]
+            cnt["history_rows"] = cnt.get("history_rows", 0) + 1
+        kind = cx["kind"]
+        ideal = kind == "ideal"
+        gtype = cx.get("ideal_type", kind)
         tk = row["tk"]
         n = [row[f"n{i}"] for i in range(len(gases))]
         pp = [row[f"pp{i}"] for i in range(len(gases))]
@@ -571,7 +583,7 @@ def judge(ctx, case, res, pre):
             cnt["pp_rows"] = cnt.get("pp_rows", 0) + 1
             for i, g in enumerate(gases):
                 present = row.get(f"eq{i}", 0) > 0
-                ptarget = 10 ** min(case["si_target"][i], 3.5)
+                ptarget = 10 ** min(cx["si_target"][i], 3.5)
                 if not present:
                     cnt["pp_absent"] = cnt.get("pp_absent", 0) + 1
                     continue
@@ -592,8 +604,19 @@ def judge(ctx, case, res, pre):
         ntot = sum(n)
         # equilibrium partial pressures from the saturation indices
         peq = [(10 ** s) / f if s > -90 and f > 0 else 0.0 for s, f in zip(si, phi)]
+        if gtype == "fixedP" and not ideal and any(n[i] == 0 and si[i] <= -99 for i in range(len(gases))):
+            # known departure `gas-component-not-in-model-stale-partial-pressure`: a listed component whose elements are absent from the
+            # system keeps p_soln_x of the previous calculation, which enters the sum of partial pressures of the pressure equation
+            pfix = cx["ptot"]
+            dev = (max(0.0, sum(peq) / pfix - 1) if p == 0 else rel(sum(peq), pfix))
+            if dev > TOL_EOS:
+                cnt["component_not_in_model_stale_p"] = cnt.get("component_not_in_model_stale_p", 0) + 1
+                checks.append(("FINDING:" + FINDING3_KEY, dev, TOL_EOS,
+                               f"fixed-pressure phase lists a component that is not in the model; GAS_P={p}, fixed P={pfix}, equilibrium partial "
+                               f"pressures of the components in the model sum to {sum(peq)} (gases={gases}, n={n})"))
+                continue
         if gtype == "fixedP":
-            pfix = case["ptot"]
+            pfix = cx["ptot"]
             if p == 0:
                 cnt["fixedP_absent"] = cnt.get("fixedP_absent", 0) + 1
                 chk("fixedP_absent_sum_below_P", max(0.0, sum(peq) / pfix - 1), TOL_EOS,
@@ -609,7 +632,7 @@ def judge(ctx, case, res, pre):
         cnt["gas_rows"] = cnt.get("gas_rows", 0) + 1
         x = [m / ntot for m in n]
         if gtype != "fixedP":
-            chk("volume_is_n_times_vm", rel(vm * ntot, case["vol"]), TOL_EOS, f"GAS_VM*n={vm * ntot} but the fixed volume is {case['vol']}")
+            chk("volume_is_n_times_vm", rel(vm * ntot, cx["vol"]), TOL_EOS, f"GAS_VM*n={vm * ntot} but the fixed volume is {cx['vol']}")
         if row.get("pressure") is not None and isinstance(row.get("pressure"), float):
             chk("gases_columns", max(rel(row["pressure"], p), rel(row["total mol"], ntot), rel(row["volume"], vm * ntot)), TOL_EOS,
                 f"-gases columns (pressure, total mol, volume)=({row['pressure']}, {row['total mol']}, {row['volume']}) vs GAS_P={p}, sum GAS={ntot}, GAS_VM*n={vm * ntot}")
@@ -743,7 +766,7 @@ def real_runs(ctx, exe, ok):
             if name.startswith("FINDING:"):
                 key = name.split(":", 1)[1]
                 ctx.finding(key, msg, {"kind": "real", "case": dict(case),
-                                       "minimal_replay": MINIMAL_FINDING if key == FINDING_KEY else MINIMAL_FINDING2})
+                                       "minimal_replay": {FINDING_KEY: MINIMAL_FINDING, FINDING2_KEY: MINIMAL_FINDING2}.get(key, MINIMAL_FINDING3)})
                 stats["known_departure_rows"] = stats.get("known_departure_rows", 0) + 1
                 continue
             r = rels.setdefault(name, {"n": 0, "max": 0.0})
